@@ -233,8 +233,14 @@ def run_programs(ctx, nprog, collect_wf=None):
             # grow the pool with well-formed results only
             outs = res if isinstance(res, list) else [res]
             if not isinstance(res, BaseException):
+                def usable(o):
+                    # (a result that cannot even be dequantized has been reported by the step / well-formedness checks: keep it out of the pool)
+                    try:
+                        return not oc.is_q(o) or tuple(o.shape) == tuple(o.dequantize().shape)
+                    except Exception:  # noqa
+                        return False
                 for o in outs:
-                    if isinstance(o, torch.Tensor) and o.numel() > 0 and o.numel() <= 4096 and (not oc.is_q(o) or tuple(o.shape) == tuple(o.dequantize().shape)):
+                    if isinstance(o, torch.Tensor) and o.numel() > 0 and o.numel() <= 4096 and usable(o):
                         if not oc.is_q(o) and o.dtype == torch.bool:
                             continue
                         if o.dtype in (torch.float32, torch.float16, torch.bfloat16) and finite(o.dequantize() if oc.is_q(o) else o):
